@@ -374,6 +374,12 @@ impl Disk
                 if let Some(beg) = self.get_available_blocks(data_blocks as u16)? {
                     let i = u16::from_le_bytes(dir.header.num_files) as usize;
                     if i < dir.entries.len() {
+                        for b in 0..data_blocks {
+                            if !fimg.chunks.contains_key(&b) {
+                                log::error!("pascal file image had a hole which is not allowed");
+                                return Err(Box::new(Error::BadFormat));
+                            }
+                        }
                         log::debug!("using entry {}",i);
                         dir.entries[i].begin_block = u16::to_le_bytes(beg);
                         dir.entries[i].end_block = u16::to_le_bytes(beg+data_blocks as u16);
